@@ -1007,6 +1007,28 @@ def gen_equiv(rng, idx):
         b = hdr + "module\nconfig <<EOC\n" + glob + cv_b + b_b + "EOC\ninit\n" + step_block(case, 0, K) + "mark go\n" + step_block(case, K)
         return dict(kind=kind, idx=idx, sub="%s%s@%d%s" % ("bias" if dead_b else "", "+colvar" if victim_cv else "", K, ":scripted_forces" if case.get("cb") else ""), scn={"A": a, "B": b}, mark="go", case=case,
                     trivial=(not dead_b and not victim_cv))
+    if kind == "addforce" and (idx // 6) % 2 == 1:
+        # non-scalar variable: the scripted force F (a derivative: no norm constraint) must come back unchanged from getappliedforce,
+        # and the atomic forces must be linear in it: session B adds 2F at every step, its atomic forces are twice those of session A
+        sysm = case["sysm"]
+        pool = list(range(1, NATA + 1))
+        ct = rng.choice(["orientation", "distanceVec", "distanceDir"])
+        cv = corpus.make_colvar(rng, sysm, pool, "s", ct, {})
+        nF = 4 if ct == "orientation" else 3
+        F1 = [rng.choice([0.0, 0.5, -1.5, 3.0, -4.0, 2.0, 0.25]) for _ in range(nF)]
+        if not any(F1):
+            F1[1] = 3.0
+        scn = {}
+        for tag, fac in (("A", 1.0), ("B", 2.0)):
+            Fs = " ".join(fnum(fac * x) for x in F1)
+            t = header(case) + "module\nconfig <<EOC\n" + glob + cv["text"] + "\nEOC\ninit\n"
+            for pos, fext in case["steps"]:
+                t += corpus.pos_line(pos) + "\n" + corpus.fext_line(fext) + "\nstep\n"
+                for argv in (["cv", "colvar", "s", "addforce", Fs], ["cv", "colvar", "s", "update"], ["cv", "colvar", "s", "communicateforces"],
+                             ["cv", "colvar", "s", "getappliedforce"], ["cv", "getatomids"], ["cv", "getatomappliedforces"]):
+                    t += "script " + json.dumps(argv) + "\n"
+            scn[tag] = t
+        return dict(kind=kind, idx=idx, sub="%s:nonscalar" % ct, scn=scn, case=case, F=F1, nonscalar=True)
     # addforce: one scalar variable of width w; A: linear bias of strength k (force -k/w on the variable);
     # B: no bias, after each step  addforce F=-k/w, update, communicateforces, getatomappliedforces
     sysm = case["sysm"]
@@ -1072,6 +1094,56 @@ def check_equiv(c, job, res, sps):
     eva, evb = res["A"][1], res["B"][1]
     if job.get("trivial"):
         return False
+    if kind == "addforce" and job.get("nonscalar"):
+        if any(e["ev"] == "config" and (e.get("rc") or e.get("err")) for e in eva + evb):
+            c.inconc("equivalence case %d: configuration rejected" % job["idx"])
+            return False
+
+        def blocks_of(evx):
+            evs = [e for e in evx if e["ev"] in ("step", "script")]
+            out, i = [], 0
+            while i < len(evs):
+                if evs[i]["ev"] == "step" and len(evs[i + 1:i + 7]) == 6 and all(x["ev"] == "script" for x in evs[i + 1:i + 7]):
+                    out.append(evs[i:i + 7])
+                    i += 7
+                else:
+                    i += 1
+            return out
+        ba, bb = blocks_of(eva), blocks_of(evb)
+        if not ba or len(ba) != len(bb):
+            c.inconc("equivalence case %d: %d / %d script blocks" % (job["idx"], len(ba), len(bb)))
+            return False
+        n = 0
+        for ka, kb in zip(ba, bb):
+            rs_ = {}
+            for tag, blk, fac in (("A", ka, 1.0), ("B", kb, 2.0)):
+                addf, upd, comm, gaf, ids, af = blk[1:]
+                bad = [x for x in (addf, upd, comm, gaf, ids, af) if x["rc"] != 0]
+                if bad:
+                    viol("equiv:addforce:command_failed", "step %d: %s" % (blk[0]["it"], bad[0]["res"][:200]))
+                    return False
+                want = [fac * x for x in job["F"]]
+                got = nums(gaf["res"])
+                if len(got) != len(want) or any(abs(fl(g_) - w_) > 1e-13 * max(1.0, abs(w_)) for g_, w_ in zip(got, want)):
+                    viol("equiv:addforce:getappliedforce:nonscalar", "step %d (%s): after addforce %s + update, getappliedforce says %r" % (
+                        blk[0]["it"], job["sub"], want, gaf["res"][:120]))
+                    return False
+                rs_[tag] = ([int(x) for x in nums(ids["res"])], [nums(x) for x in re.findall(r"\{([^{}]*)\}", af["res"])])
+            if rs_["A"][0] != rs_["B"][0] or len(rs_["A"][1]) != len(rs_["B"][1]):
+                viol("equiv:addforce:shape", "step %d: atom lists differ between the two sessions" % ka[0]["it"])
+                return False
+            scale = max([1e-12] + [abs(fl(x)) for v in rs_["B"][1] for x in v])
+            if scale < 1e-9:
+                viol("equiv:addforce:atomic_forces:nonscalar", "step %d (%s): a scripted force %s gives no atomic force at all" % (ka[0]["it"], job["sub"], job["F"]))
+                return False
+            for a_, va, vb in zip(rs_["A"][0], rs_["A"][1], rs_["B"][1]):
+                if len(va) != 3 or len(vb) != 3 or any(abs(2.0 * fl(x) - fl(y)) > 1e-11 * scale for x, y in zip(va, vb)):
+                    viol("equiv:addforce:atomic_forces:nonscalar", "step %d (%s) atom %d: scripted force F = %s gives %s, 2F gives %s (not twice)" % (
+                        ka[0]["it"], job["sub"], a_, job["F"], va, vb))
+                    return False
+            n += 1
+        c.bump("equiv_addforce_nonscalar_steps", n)
+        return n > 0
     if kind == "addforce":
         if any(e["ev"] == "config" and (e.get("rc") or e.get("err")) for e in eva + evb):
             c.inconc("equivalence case %d: configuration rejected" % job["idx"])
